@@ -241,14 +241,20 @@ struct Batch {
 };
 
 // ------------------------------------------------------------------------------------------ data letters
-static const char* XL[] = {"white", "sinus", "imptrain"};
+// "levels": the white letter with granule i scaled by 10^((i%3)-2) (0.01, 0.1, 1: 20 dB steps between granules), so that
+// a normalisation / correlation state that is not advanced while the filter is locked becomes visible after unlocking
+static const char* XL[] = {"white", "sinus", "imptrain", "levels"};
 static const char* DL[] = {"sys_impulse", "sys_decay_rot", "sys_dense", "indep"};
 
-static std::vector<cld> make_x(int xl, bool cplx, int n, bool gauss = false) {
+static std::vector<cld> make_x(int xl, bool cplx, int n, bool gauss = false, int gran = 1) {
     std::vector<cld> x(n);
     for (int k = 0; k < n; ++k) {
         ld re = 0, im = 0;
-        if (xl == 0) {
+        if (xl == 3) {
+            const ld sc = powl(10.0L, (ld)((k / gran) % 3) - 2);
+            re = sc * lcg_val(33, k);
+            im = sc * lcg_val(34, k);
+        } else if (xl == 0) {
             if (gauss) {
                 re = lcg_gauss(31, k);
                 im = lcg_gauss(32, k);
@@ -520,23 +526,59 @@ static void rls_batch(Ctx& ctx, const Cfg& cfg, uint64_t /*cfg_hash*/, const std
 }
 
 // ------------------------------------------------------------------------------------------ adapt.hist
-// all compositions of G granules x all lock flags per frame, each on a fresh real object; the model is the
-// per-sample drive of the real object (itself checked for a-priori ordering) under the induced lock pattern.
+// lock-aware long-double recursion over a per-sample lock pattern (locked: coefficients frozen, tap history advances,
+// y/e computed; the NLMS normalisation is always the power of the true current window)
+struct RefTrace {
+    std::vector<cld> y, e, w;   // w: coefficients after sample k, n x L
+    std::vector<ld> ys, wn;     // scale of y/e, ||w|| after sample k
+    std::vector<char> valid;    // reference usable at sample k (RLS: condition estimate <= 1e8 so far)
+};
+static RefTrace ref_trace(const Cfg& cfg, const std::vector<cld>& x, const std::vector<cld>& d, const std::vector<char>& lock, ld condmax) {
+    const int n = (int)x.size(), L = cfg.len;
+    RefTrace t;
+    t.y.resize(n), t.e.resize(n), t.w.resize((size_t)n * L), t.ys.resize(n), t.wn.resize(n), t.valid.assign(n, 1);
+    Ref ref(cfg);
+    bool ok = true;
+    for (int k = 0; k < n; ++k) {
+        ld cb = 0;
+        for (int j = 0; j < L; ++j) cb += std::norm(ref.w[j]);
+        t.y[k] = ref.step(x[k], d[k], (bool)lock[k], &t.e[k]);
+        if (cfg.kind == K_RLS && ref.cond > condmax) ok = false;
+        ld ca = 0, un = 0;
+        for (int j = 0; j < L; ++j) {
+            ca += std::norm(ref.w[j]);
+            un += std::norm(ref.u[j]);
+            t.w[(size_t)k * L + j] = ref.w[j];
+        }
+        t.wn[k] = sqrtl(ca);
+        t.ys[k] = sqrtl(std::max(cb, ca)) * sqrtl(un) + std::abs(d[k]);
+        t.valid[k] = ok;
+    }
+    return t;
+}
+
+// all compositions of G granules x all lock flags per frame, each on a fresh real object.  Two oracles per history:
+// (1) the lock-aware long-double recursion, sample by sample (independent of the implementation), and
+// (2) the per-sample drive of the real object (itself checked for a-priori ordering) under the induced lock pattern.
 template<class T>
 static void hist_case(Ctx& ctx, const Cfg& cfg, uint64_t cfg_hash, const std::vector<cld>& x, const std::vector<cld>& d, int G, int gs) {
     const char* site = cfg.kind == K_RLS ? "RlsFilter.process" : "LmsFilter.process";
     const int n = G * gs, L = cfg.len;
     StepOpt so;
-    so.with_ref = false;
+    so.with_ref = true;   // the per-sample drives are compared with the lock-aware recursion too
     so.ref_allowed = lms_stable(cfg, x);
-    // per-sample model traces for every granule-level lock pattern
+    if (!so.ref_allowed) ctx.note("adapt.hist: LMS step outside the stable range for this letter (reference comparison skipped)");
+    // per-sample model traces and long-double reference traces for every granule-level lock pattern
     std::vector<Trace<T>> model((size_t)1 << G);
+    std::vector<RefTrace> rts((size_t)1 << G);
     for (int m = 0; m < (1 << G); ++m) {
         std::vector<char> lock(n);
         for (int k = 0; k < n; ++k) lock[k] = (m >> (k / gs)) & 1;
+        if (so.ref_allowed) rts[m] = ref_trace(cfg, x, d, lock, so.condmax);
         if (!step_drive<T>(ctx, cfg, cfg_hash, x, d, lock, so, model[m], P().kv("drive", "per-sample").kv("lockmask", m))) return;
     }
-    long long bitident = 0, frames = 0, lockedframes = 0;
+    long long bitident = 0, frames = 0, lockedframes = 0, refcmp = 0, refskip = 0;
+    const std::string refkey = std::string("hist: ") + KNAME[cfg.kind] + " history vs lock-aware long-double recursion, rel err";
     // compositions: bit i of comp set = frame boundary after granule i (i = 0..G-2)
     for (int comp = 0; comp < (1 << (G - 1)); ++comp) {
         std::vector<int> fs;   // frame sizes in granules
@@ -555,6 +597,7 @@ static void hist_case(Ctx& ctx, const Cfg& cfg, uint64_t cfg_hash, const std::ve
                 g0 += fs[i];
             }
             const Trace<T>& mt = model[mask];
+            const RefTrace& rt = rts[mask];
             Filt<T> f(cfg);
             int pos = 0;
             auto detail = [&](const char* sub, int fi, int k) {
@@ -601,6 +644,22 @@ static void hist_case(Ctx& ctx, const Cfg& cfg, uint64_t cfg_hash, const std::ve
                                  "the a-priori output does not depend on the framing", detail(locked ? "locked_fir" : "framing", fi, k));
                         return;
                     }
+                    // independent oracle: the lock-aware long-double recursion, sample by sample
+                    if (so.ref_allowed) {
+                        if (!rt.valid[k]) ++refskip;
+                        else {
+                            ++refcmp;
+                            const ld ry = rt.ys[k] > 0 ? std::abs(TT<T>::up(y[i]) - rt.y[k]) / rt.ys[k] : 0;
+                            const ld re = rt.ys[k] > 0 ? std::abs(TT<T>::up(e[i]) - rt.e[k]) / rt.ys[k] : 0;
+                            ctx.worst(refkey, (double)std::max(ry, re));
+                            if (ry > REL || re > REL) {
+                                ctx.fail(site, fmt("sample %d of the history: relative deviation from the lock-aware reference recursion y %.3Lg e %.3Lg (y = %.17Lg, reference %.17Lg)", k, ry, re,
+                                                   TT<T>::up(y[i]).real(), rt.y[k].real()),
+                                         "<= 1e-9 (textbook recursion in long double: locked = coefficients frozen, history advances)", detail("reference", fi, k));
+                                return;
+                            }
+                        }
+                    }
                     if (locked) {
                         // exactly the FIR filter with coeffs(): long-double FIR over the true input history
                         cld yp = 0;
@@ -619,6 +678,20 @@ static void hist_case(Ctx& ctx, const Cfg& cfg, uint64_t cfg_hash, const std::ve
                     }
                 }
                 if (stop) break;
+                // coefficients after the frame against the reference
+                if (so.ref_allowed && rt.valid[pos + len - 1]) {
+                    const base_array<T> ca = f.coeffs();
+                    const int ke = pos + len - 1;
+                    ld dn = 0;
+                    for (int j = 0; j < L && j < ca.size(); ++j) dn += std::norm(TT<T>::up(ca[j]) - rt.w[(size_t)ke * L + j]);
+                    const ld rc = rt.wn[ke] > 0 ? sqrtl(dn) / rt.wn[ke] : (dn > 0 ? 1 : 0);
+                    ctx.worst(refkey, (double)rc);
+                    if (ca.size() != L || rc > REL) {
+                        ctx.fail(site, fmt("coeffs() after frame %d (sample %d) deviate from the lock-aware reference recursion by %.3Lg relative", fi, ke, rc),
+                                 "<= 1e-9 (textbook recursion in long double: locked = coefficients frozen, history advances)", detail("reference_coeffs", fi, ke));
+                        return;
+                    }
+                }
                 if (same) ++bitident;
                 if (locked) {
                     ++lockedframes;
@@ -653,6 +726,8 @@ static void hist_case(Ctx& ctx, const Cfg& cfg, uint64_t cfg_hash, const std::ve
     ctx.note("adapt.hist: frames executed", frames);
     ctx.note("adapt.hist: locked frames", lockedframes);
     ctx.note("adapt.hist: frames bit-identical to the per-sample drive", bitident);
+    ctx.note("adapt.hist: history samples compared with the lock-aware long-double recursion", refcmp);
+    if (refskip) ctx.note("adapt.hist: history samples skipped, reference ill-conditioned (cond > 1e8)", refskip);
     ctx.nontrivial();
 }
 
@@ -775,7 +850,7 @@ int main(int argc, char** argv) {
         // (a) len <= 4: 6 granules, the whole parameter box
         // (granules, samples per granule)
         const std::vector<std::pair<int, int>> gss = TH ? std::vector<std::pair<int, int>>{{6, 1}, {6, 2}, {6, 3}, {7, 2}} : std::vector<std::pair<int, int>>{{6, 2}};
-        const int pairs[][2] = {{0, 2}, {1, 1}, {2, 3}};   // (x letter, d letter)
+        const int pairs[][2] = {{0, 2}, {1, 1}, {2, 3}, {3, 2}};   // (x letter, d letter)
         for (int len : {2, 3, 4})
             for (const Cfg& cfg : param_box(len))
                 for (int cplx = 0; cplx < 2; ++cplx)
@@ -785,7 +860,7 @@ int main(int argc, char** argv) {
                             P p = cfg_params(cfg, cplx);
                             p.kv("x", XL[pr[0]]).kv("d", DL[pr[1]]).kv("granules", G).kv("gsize", gs);
                             if (!ctx.take("adapt.hist", p)) continue;
-                            const std::vector<cld> x = make_x(pr[0], cplx, G * gs);
+                            const std::vector<cld> x = make_x(pr[0], cplx, G * gs, false, gs);
                             const std::vector<cld> d = make_d(pr[1], cplx, x, make_h0(pr[1], cplx, len));
                             if (cplx) hist_case<cmplx_t>(ctx, cfg, fnv(p.str()), x, d, G, gs);
                             else hist_case<real_t>(ctx, cfg, fnv(p.str()), x, d, G, gs);
@@ -803,7 +878,7 @@ int main(int argc, char** argv) {
                         P p = cfg_params(cfg, cplx);
                         p.kv("x", XL[pr[0]]).kv("d", DL[pr[1]]).kv("granules", 4).kv("gsize", gs);
                         if (!ctx.take("adapt.hist", p)) continue;
-                        const std::vector<cld> x = make_x(pr[0], cplx, 4 * gs);
+                        const std::vector<cld> x = make_x(pr[0], cplx, 4 * gs, false, gs);
                         const std::vector<cld> d = make_d(pr[1], cplx, x, make_h0(pr[1], cplx, len));
                         if (cplx) hist_case<cmplx_t>(ctx, cfg, fnv(p.str()), x, d, 4, gs);
                         else hist_case<real_t>(ctx, cfg, fnv(p.str()), x, d, 4, gs);
